@@ -16,6 +16,7 @@ import (
 	"servitor/jtp"
 	"servitor/object"
 	"servitor/ui"
+	"sort"
 	"strings"
 	"sync"
 	"sync/atomic"
@@ -455,7 +456,11 @@ func init() {
 			time.Sleep(20 * time.Millisecond)
 		}
 		if raw, err := os.ReadFile(hookLog); err == nil {
-			for _, l := range strings.Split(strings.TrimSuffix(string(raw), "\n"), "\n") {
+			lines := strings.Split(strings.TrimSuffix(string(raw), "\n"), "\n")
+			/* each hook process writes its own line: two started within microseconds of each other
+			   may write in either order, so the record is a multiset (listed sorted) */
+			sort.Strings(lines)
+			for _, l := range lines {
 				opened = append(opened, l)
 			}
 		}
